@@ -85,7 +85,7 @@ def run_case(run, tf, drv, files, pl, single, via_cli, tag, spelling=None, out_i
     case = {"files": [(rel, b.token()) for rel, b in files], "pl": pl, "single": single,
             "via_cli": via_cli, "gen": tag, "spelling": spelling,
             "out_inside": bool(out_inside),
-            "links": {rel: b.hardlink_of for rel, b in files if getattr(b, "hardlink_of", None)}}
+            "links": __import__("harness.props.creation", fromlist=["links"]).links(files)}
     with sandbox("c01") as box:
         root = os.path.join(box, "payload")
         if single:
@@ -185,6 +185,11 @@ def run(tier, seed, replay=None):
         run_case(run, tf, drv, files, c["pl"], c["single"], c["via_cli"], "replay",
                  spelling=c.get("spelling"), out_inside=bool(c.get("out_inside")))
     else:
+        from harness.props import creation as _crc
+        for files, pl, single in _crc.corner_cases():
+            if sum(len(b) for _, b in files):       # C01: trees with at least one byte
+                for via in (False, True, "again1"):
+                    run_case(run, tf, drv, files, pl, single, via, "corner")
         n = 160 if tier == "quick" else 1500
         for i in range(n):
             pl = gen.pick_pl(rng)
